@@ -3,6 +3,7 @@ package main
 import (
 	"go/ast"
 	"go/constant"
+	"go/token"
 	"strings"
 
 	"golang.org/x/tools/go/packages"
@@ -406,6 +407,39 @@ func targets() []*target {
 			result: "option (option bytes * list Z * list (Z * bytes) * list (bytes * Z) * list (Z * list (Z * bytes)) * list (Z * list Z) * list (Z * Z) * list (Z * bool))",
 			final:  "None"},
 
+		// ---- the end of Entry.logContext (C12): from the print of the record to the end of the function ----
+		// every statement on the way is translated, so an early return between the print and the termination block
+		// changes the generated function; the record's print is the event (its level), the panic value is msg, the
+		// exit code that of the source; the pooled attribute slice is a []T of which only length and capacity matter
+		{pkg: slogPkg, recv: "Entry", fn: "logContext", coq: "after_print", file: "Termination", strict: true, fallback: "TermRef.after_print_ref",
+			comment: "(from s.print to the end: Some (how the call ends, trace) | None = a range panic)",
+			tymap:   map[string]string{"Attrs": "gslice"}, effects: []string{"tr_"}, panicT: "None", panicFmt: "Some (DoPanic %s, tr_)",
+			opaque:  map[string]string{"inTesting": "g_inTesting", "inBenching": "g_inBenching", "isDebugging": "g_isDebugging", "isDebug": "g_isDebug"},
+			calls: map[string]callSpec{
+				"*Entry.print":   {ev: "%1", lazy: true},
+				"sync.Pool.Put":  {ignore: true},
+				"IsAnyBitsSet":   {pure: "(negb (Z.land g_flags %0 =? 0))"},
+				"IsAllBitsSet":   {pure: "(Z.land g_flags %0 =? %0)"},
+				"os.Exit":        {tail: "exit_end %0"},
+			},
+			from: func(stmts []ast.Stmt) []ast.Stmt {
+				for i, s := range stmts {
+					if es, ok := s.(*ast.ExprStmt); ok && strings.HasPrefix(src(es.X), "s.print(") {
+						return stmts[i:]
+					}
+				}
+				return nil
+			},
+			params: []string{"(g_inTesting g_inBenching g_isDebugging g_isDebug : bool)", "(g_flags : Z)", "(lvl : Z)", "(msg : bytes)", "(kvps : gslice)", "(tr_ : list Z)"},
+			result: "option (term * list Z)", final: "Some (Continue, tr_)"},
+		// the initialiser of the package variable inTesting (the process-mode input of the decision): what it asks hedzr/is
+		{pkg: slogPkg, recv: "Entry", fn: "logContext", coq: "in_testing_init", file: "Termination", strict: true, fallback: "TermRef.in_testing_init_ref",
+			comment: "(the initialiser of var inTesting)", panicT: "false",
+			calls: map[string]callSpec{"is.InTesting": {pure: "f_InTesting"}, "is.InBenchmark": {pure: "f_InBenchmark"}, "is.InDebugging": {pure: "f_InDebugging"},
+				"is.DebugMode": {pure: "f_DebugMode"}, "is.DebugBuild": {pure: "f_DebugBuild"}},
+			cond: func(fd *ast.FuncDecl) ast.Expr { return varInit(slogPkg(), "inTesting") },
+			params: []string{"(f_InTesting f_InBenchmark f_InDebugging f_DebugMode f_DebugBuild : bool)"}, result: "bool", final: "false"},
+
 		// ---- the buffer methods of PrintCtx (C19) ----
 		bufT("empty", "buf_empty", nil, "bool", "false", false),
 		bufT("Len", "buf_len", nil, "Z", "0", false),
@@ -559,6 +593,7 @@ var genFiles = [][2]string{
 	{"Registry", "Require Import Verif.Model.Base Verif.Model.Decision Verif.Model.Dec Verif.Model.GoSem Verif.Model.Level Verif.Model.RegRef."},
 	{"Loggers", "Require Import Verif.Model.Base Verif.Model.Decision Verif.Model.Dec Verif.Model.GoSem Verif.Model.TreeRef."},
 	{"Handlers", "Require Import Verif.Model.Base Verif.Model.Decision Verif.Model.GoSem Verif.Model.AdaptRef."},
+	{"Termination", "Require Import Verif.Model.Base Verif.Model.Decision Verif.Model.GoSem Verif.Model.Terminate Verif.Model.TermRef."},
 	{"Context", "Require Import Verif.Model.Base Verif.Model.Decision Verif.Model.GoSem Verif.Model.Attrs Verif.Model.PcRef."},
 	{"LevelNames", "Require Import Verif.Model.Base Verif.Model.Decision Verif.Model.Dec Verif.Model.GoSem Verif.Model.LevelRef."},
 }
@@ -591,4 +626,22 @@ func commentSafe(s string) string {
 	s = strings.ReplaceAll(s, "*)", "* )")
 	s = strings.ReplaceAll(s, "(*", "( *")
 	return strings.ReplaceAll(s, "\"", "'")
+}
+
+// varInit: the initialiser expression of a package-level variable declared with one name and one value
+func varInit(p *packages.Package, name string) ast.Expr {
+	for _, f := range p.Syntax {
+		for _, d := range f.Decls {
+			gd, ok := d.(*ast.GenDecl)
+			if !ok || gd.Tok != token.VAR {
+				continue
+			}
+			for _, sp := range gd.Specs {
+				if vs, ok := sp.(*ast.ValueSpec); ok && len(vs.Names) == 1 && len(vs.Values) == 1 && vs.Names[0].Name == name {
+					return vs.Values[0]
+				}
+			}
+		}
+	}
+	return nil
 }
